@@ -91,11 +91,14 @@ def field_source(fdef):
             kw.append('%s=%r' % (a, fdef[a]))
     if kind == 'ManyToMany' and fdef.get('db_table'):
         kw.append('db_table=%r' % fdef['db_table'])
+    if kind == 'ManyToMany' and fdef.get('subclass'):
+        return 'SubM2M(%s)' % ', '.join(kw)
     return 'models.%s(%s)' % (cls, ', '.join(kw))
 
 
 def models_source(app, mods):
-    lines = ['from django.db import models', '', '']
+    lines = ['from django.db import models',
+             'from vcheck.customfields import SubM2M', '', '']
     if not mods:
         lines.append('# no models at this version')
     for mname, ms in mods.items():
